@@ -87,9 +87,10 @@ def run_impl(case):
     from clikit.args.default_args_parser import DefaultArgsParser
     fmt = pc.build_format(case["spec"])
     flat = pc.flatten(fmt)
+    argv = ["prog"] + list(case["tokens"])      # ONE list object for both parses, as a program re-using sys.argv does
     return {"flat": flat,
-            "strict": pc.run_parse(DefaultArgsParser(), fmt, case["tokens"], False),
-            "lenient": pc.run_parse(DefaultArgsParser(), fmt, case["tokens"], True),
+            "strict": pc.run_parse(DefaultArgsParser(), fmt, case["tokens"], False, argv=argv),
+            "lenient": pc.run_parse(DefaultArgsParser(), fmt, case["tokens"], True, argv=argv),
             "strict_reused": pc.run_reused(fmt, case.get("prev", []), case["tokens"], False),
             "lenient_reused": pc.run_reused(fmt, case.get("prev", []), case["tokens"], True)}
 
